@@ -354,7 +354,11 @@ Definition ms_unsol_id_eqb (x y : ms_unsol_id) : bool :=
 
 Definition ms_handle_unsolicited (now : ms_time) (f : ms_rxfrag) (a0 : ms_assoc) : ms_assoc * list ms_obs :=
   let a := ms_process_iin f a0 in
-  if ms_integrity_complete a || negb (ms_has_objects f) then
+  if negb (ms_integrity_complete a || negb (ms_has_objects f)) then (a, [MsOUnsolIgnored now (ms_a_addr a)])
+  else if negb (ms_r_ok f) then
+    (* objects that cannot be parsed: not accepted, not confirmed (repair 588059f) *)
+    (a, [MsOUnsolIgnored now (ms_a_addr a)])
+  else
     let id := ms_unsol_id_of f in
     let dup := match ms_a_last_unsol a with Some old => ms_unsol_id_eqb old id | None => false end in
     let a1 := ms_set_last_unsol a (Some id) in
@@ -362,8 +366,7 @@ Definition ms_handle_unsolicited (now : ms_time) (f : ms_rxfrag) (a0 : ms_assoc)
                    else (if ms_r_ok f then [MsOCb now (ms_a_addr a) MsRtUnsol (ms_r_nvalues f)] else [])
                         ++ [MsOUnsol now (ms_a_addr a) false (ms_r_seq f)] in
     let confirm := if ms_r_con f then [MsOTx now (ms_confirm_unsol_bytes (ms_r_seq f))] else [] in
-    (a1, deliver ++ confirm)
-  else (a, [MsOUnsolIgnored now (ms_a_addr a)]).
+    (a1, deliver ++ confirm).
 
 (* ---- requests as bytes ----------------------------------------------------------------------- *)
 
@@ -515,9 +518,7 @@ Definition ms_nonread_handle (now : ms_time) (systime : option Z) (t : ms_task) 
   | MsTTimeSync (MsTsMeasure t0) p =>
       let t0' := match t0 with Some x => x | None => now end in
       let interval := now - t0' in
-      if negb (ms_r_ok f) then
-        let '(a1, o) := ms_tsync_report now p (Some MsEMalformed) a in (a1, o, MsHError MsEMalformed)
-      else match ms_r_delay f with
+      match (if ms_r_ok f then ms_r_delay f else None) with
       | None =>
           let '(a1, o) := ms_tsync_report now p (Some MsEUnexpectedHeaders) a in
           (a1, o, MsHError MsEUnexpectedHeaders)
